@@ -283,7 +283,8 @@ def run(ctx: Ctx) -> None:
     ctx.check("include" in repo.const("tokens", "REPEATED_KEYS"), "I5", "include in REPEATED_KEYS", "mappyfile/tokens.py", "", "INCLUDE is not a repeated key: several INCLUDE lines would overwrite each other when not expanded")
 
     # ---- I6 file-name extraction (PAI) ---------------------------------------------------------
-    ctx.rule("I6", "_get_include_filename returns the bare file name for INCLUDE <f>, \"<f>\", '<f>' with or without a trailing # comment", 6)
+    gif_q, gif_m = models.include_filename_func(e)
+    ctx.rule("I6", "the helper load_includes hands an INCLUDE line to returns the bare file name for INCLUDE <f>, \"<f>\", '<f>' with or without a trailing # comment", 6)
     I = e.interp(allow_fork=False)
     body = lambda: Atom("f", first=CC.of("abcdefghijklmnopqrstuvwxyz/._0123456789"), last=CC.of("abcdefghijklmnopqrstuvwxyz0123456789"), excludes=frozenset(" \t\n\r\x0b\x0c#'\""))
     cm = lambda: Atom("c", nonempty=False, excludes=frozenset("\n"))
@@ -296,13 +297,13 @@ def run(ctx: Ctx) -> None:
                 if comment:
                     # the comment text may contain anything but a newline; model it as words without '#'
                     line = SStr(pieces + [Atom("c", excludes=frozenset(" \t\n\r\x0b\x0c#"))])
-                inst = pai.Inst("parser.Parser")
+                inst = pai.Inst("parser.Parser") if gif_m else None
                 return inst, [line], {}
             try:
-                outs = I.explore("parser.Parser._get_include_filename", make)
+                outs = I.explore(gif_q, make)
             except AnalysisError:
                 raise
             want = SStr([body()])
             good = len(outs) == 1 and outs[0].kind == "return" and outs[0].value == want
-            ctx.check(good, "I6", f"quote={q or 'none'} comment={comment}", repo.loc("parser", repo.func("parser.Parser._get_include_filename")), f"returns {outs[0].value!r}" if outs else "", f"returns {[(o.kind, o.value, o.exc) for o in outs]}, expected the bare name")
+            ctx.check(good, "I6", f"quote={q or 'none'} comment={comment}", repo.loc("parser", repo.func(gif_q)), f"returns {outs[0].value!r}" if outs else "", f"returns {[(o.kind, o.value, o.exc) for o in outs]}, expected the bare name")
     ctx.units.update({"functions": ["parser.Parser.load_includes", "parser.Parser._get_include_filename", "parser.Parser.open_file", "parser.Parser.parse_file", "parser.Parser.load", "parser.Parser.parse"], "pai_paths": I.paths_run})
